@@ -146,9 +146,12 @@ func ensureBuilt(race bool) string {
 	if _, err := os.Stat(base); err != nil {
 		base = os.TempDir()
 	}
-	scratch, err := os.MkdirTemp(base, "verif-build-")
-	if err != nil {
-		die(2, "mktemp: %v", err)
+	// a fixed path (builds are serialised by the lock above): the Go build cache can then
+	// reuse every package whose instrumented sources did not change since the last build
+	scratch := filepath.Join(base, fmt.Sprintf("verif-build-%d", os.Getuid()))
+	os.RemoveAll(scratch)
+	if err := os.MkdirAll(scratch, 0o755); err != nil {
+		die(2, "mkdir: %v", err)
 	}
 	defer os.RemoveAll(scratch)
 	siminst := filepath.Join(scratch, "siminst")
